@@ -814,7 +814,8 @@ class ExecutionGraph(DAG, PickleInterface):
                     LOGGER.warning("Hardware failure detected. Attempting to "
                                    "resubmit step '%s'.", name)
                     # We can just let the logic below handle submission with
-                    # everything else.
+                    # everything else. The failed job no longer holds a slot.
+                    self.in_progress.remove(name)
                     self.ready_steps.append(name)
 
                 elif status == State.FAILED:
